@@ -54,8 +54,26 @@ def pool_clock(clock):
         pb.time = old
 
 
+class InjectedBaseException(BaseException):
+    """KeyboardInterrupt / CancelledError style fault: not an Exception, so Pool._close_connection re-raises it"""
+
+
+class _BaseFaultConn(fakedb.FakeConnection):
+    """FakeConnection that also understands the plan kind "base" (raise a BaseException subclass at that call)"""
+
+    def _call(self, site, detail=None):
+        db = self.db
+        k = db.counts[site]
+        if db.plan.get((site, k)) == "base" and not (self.closed and site != "close") and not (self.dead and site != "close"):
+            db.log.append((self.id, site, detail))
+            db.counts[site] += 1
+            db.injected.append((self.id, site, k, "base"))
+            raise InjectedBaseException(f"injected base at {site}#{k} on connection {self.id}")
+        return super()._call(site, detail)
+
+
 class ClockedDB(fakedb.FakeDB):
-    """FakeDB whose ledger time (FakeConnection.opened_at) is the virtual clock"""
+    """FakeDB whose ledger time (FakeConnection.opened_at) is the virtual clock; connections understand kind "base" """
 
     def __init__(self, vclock):
         self._vclock = vclock
@@ -63,10 +81,17 @@ class ClockedDB(fakedb.FakeDB):
 
     clock = property(lambda self: self._vclock.now, lambda self, v: None)
 
+    def connect(self):
+        n = len(self.conns)
+        c = super().connect()  # faults at the connect site are handled there
+        if len(self.conns) == n + 1 and self.conns[-1] is c and type(c) is fakedb.FakeConnection:
+            c.__class__ = _BaseFaultConn
+        return c
+
 
 # ------------------------------------------------------------------ fault plans
 DBAPI_SITES = ("connect", "cursor", "execute", "commit", "rollback", "close", "ping")
-EVENT_SITES = ("ev_checkout", "ev_reset")
+EVENT_SITES = ("ev_checkout", "ev_reset", "ev_close", "ev_close_detached", "ev_checkin")
 
 
 def arm(db, plan, events=None):
@@ -94,7 +119,7 @@ class PoolEvents:
     """pool-level listeners that raise per plan; attached to the Engine so they
     follow Engine.dispose() -> pool.recreate()"""
 
-    def __init__(self, engine, db):
+    def __init__(self, engine, db, more=False):
         from sqlalchemy import event
 
         self.db = db
@@ -102,6 +127,18 @@ class PoolEvents:
         self.counts = Counter()
         event.listen(engine, "checkout", self._checkout)
         event.listen(engine, "reset", self._reset)
+        if more:
+            event.listen(engine, "close", self._mk("ev_close"))
+            event.listen(engine, "close_detached", self._mk("ev_close_detached"))
+            event.listen(engine, "checkin", self._mk("ev_checkin"))
+
+    def _mk(self, site):
+        def listener(dbapi_connection, *rest):
+            kind, k, cid = self._fire(site, dbapi_connection)
+            if kind:
+                raise fakedb.OperationalError(f"injected error at {site}#{k} on connection {cid}")
+
+        return listener
 
     def _fire(self, site, dbapi_connection):
         k = self.counts[site]
@@ -152,6 +189,8 @@ def classify_error(prop, e, where, allow=()):
     escape: the runner reports crashes inside the library)."""
     from sqlalchemy import exc
 
+    if isinstance(e, InjectedBaseException):
+        return "base:InjectedBaseException"
     if isinstance(e, fakedb.Error):
         if is_injected_dbapi_error(e):
             return "raw:" + type(e).__name__
@@ -173,6 +212,7 @@ class Bans:
     def __init__(self, db):
         self.db = db
         self.reason = {}  # conn id -> reason (first one wins)
+        self.exempt = set()  # connections whose close a user listener vetoed by raising: the pool could not discard them
 
     def ban(self, cid, reason):
         if cid is not None:
@@ -191,7 +231,7 @@ class Bans:
 
     def check_handed_out(self, prop, cid, where):
         self.sync_dead_and_closed()
-        if cid in self.reason:
+        if cid in self.reason and cid not in self.exempt:
             raise Violation(f"{prop}/reuse/{_slug(self.reason[cid])}", f"{where}: DBAPI connection {cid} was handed out although {self.reason[cid]}",
                             observed=cid, expected="a connection that is not banned")
 
